@@ -75,10 +75,32 @@ class Prop:
                          nontrivial=lambda l, o: not o.startswith('ERR:') and '=N' in o)
         for (cname, bits, L), o in zip(meta2, outs2):
             self.check_prefix(ctx, cname, bits, L, o, fulls[bits], 'decode(sentences)')
+        # ... and as several fragments handed to decode() in any order (the fill bits belong to the last
+        # FRAGMENT, wherever it stands among the arguments)
+        lines3, meta3 = [], []
+        for (cname, bits, L) in meta[3::11 if ctx.tier == 'quick' else 3]:
+            nchar = (L + 5) // 6
+            if nchar < 2:
+                continue
+            k = rng.randint(1, min(3, nchar - 1))
+            cuts = sorted(rng.sample(range(1, nchar), k))
+            sents = gen.render(bits[:L], seq=str(rng.randint(0, 9)), cuts=cuts)
+            order = list(range(len(sents)))
+            rng.shuffle(order)
+            if order == sorted(order):
+                order.reverse()
+            lines3.append('decode 0 ' + ' '.join(sents[i].hex() for i in order))
+            meta3.append((cname, bits, L))
+        outs3 = ctx.corr(lines3, impl.step, 'decode-shuffled',
+                         nontrivial=lambda l, o: not o.startswith('ERR:') and '=N' in o)
+        for (cname, bits, L), o in zip(meta3, outs3):
+            self.check_prefix(ctx, cname, bits, L, o, fulls[bits], 'decode(shuffled fragments)')
 
     def replay(self, ctx, payload):
         inp = payload['failure']['input']
         bits, L = inp['bits'], inp['length']
+        if inp.get('via') != 'from_bitarray':
+            return None      # carrier cases: regenerated from the recorded seed by the generic replay
         self.check_prefix(ctx, inp['class'], bits, L, impl.step('frombits %s' % bits[:L]),
                           impl.step('frombits %s' % bits), 'from_bitarray')
         return not ctx.failures
